@@ -17,7 +17,7 @@ import (
 //     hundreds, 10^3k and its neighbours for every scale word, negative numbers.
 // The known findings are respected through the static predicate proved exact in Coq
 // (EnglishProofs.english_ok, C15_english_loop_exact; C15_dirR_roman_exact): the English text is compared exactly
-// where english_ok holds (no group with tens 2..9 and units 0, below 10^66, ordinals
+// where english_ok holds (below 10^66, ordinals
 // only of numbers that do not end in 0 beyond 10), the Roman text everywhere but at 0.
 // Every difference is reported with its input.
 
@@ -128,11 +128,6 @@ func englishOK(ordinal bool, z *big.Int) bool {
 	n := new(big.Int).Abs(z)
 	if n.Cmp(pow10[66]) >= 0 {
 		return false
-	}
-	for _, t := range groupsOf(n) {
-		if !(t%100 < 20 || t%10 != 0) {
-			return false
-		}
 	}
 	if !ordinal || n.Sign() == 0 {
 		return true
